@@ -13,6 +13,7 @@ ASSUMPTIONS = [
     "sweeps are reconstructed from observables only: a maximal run of expansions with strictly increasing depth inside one pull() call (DESIGN §5a.7)",
     "'best of its depth' is proved as value(expanded) >= value(other leaf of that depth) at the moment of the expansion, values recomputed from the harness' ledger (SOO: reward; StoSOO: mean + sqrt(ln(nk/delta)/(2T)), infinite when unevaluated; DOO: reward + delta(depth) over all leaves); ties may be broken either way",
     "'first unevaluated leaf in top-down order' is demanded with respect to depth (no unevaluated leaf at a strictly shallower depth)",
+    "DOO additionally: reward + algo.delta(depth) of the expanded leaf >= that of every other leaf EXACTLY (no tolerance), with the algorithm's own public delta(h) as the diameter function",
     "DOO: default delta on the concrete box [0,1]^d (delta(h) is then a concrete number), user-supplied delta(h)=0.5^h on a symbolic box",
 ]
 T_OF = {"SOO": (7, 13), "StoSOO": (8, 14), "DOO": (7, 11)}
@@ -130,6 +131,13 @@ class Rule(Observer):
             if vx is None:
                 continue
             ctx.check("rule:best_of_depth", asb(ge(vL, vx)), "round %d: %s expanded although leaf %s has a higher value" % (t, label(L), label(x)))
+            if self.name == "DOO":
+                # the same comparison without tolerance, the diameter taken from the algorithm's own public delta(h): reward and
+                # delta(h) are then exactly the numbers the code adds, so the two sums can be compared exactly (deep cells,
+                # where delta(h) is far below the tolerance used above)
+                eL = self.hist(L)[-1] + self.algo.delta(h)
+                ex = self.hist(x)[-1] + self.algo.delta(x.get_depth())
+                ctx.check("rule:best_b_exact", asb(eL >= ex), "round %d: %s expanded although reward + delta(depth) of leaf %s is higher" % (t, label(L), label(x)))
         if self.name in ("SOO", "StoSOO"):
             if self.sweep and self.sweep[-1][0] >= h:
                 self.sweep = []  # a new sweep starts
